@@ -226,6 +226,10 @@ def genLine (args : List String) : String :=
       match r with
       | some .lt => "lt" | some .eq => "eq" | some .gt => "gt" | none => "panic"
     | _, _, _ => "bad"
+  | ["u64of", k] => match parseBytes k with
+    | some k => s!"{Gen.keyToU64 k}" | none => "bad"
+  | ["i64of", k] => match parseBytes k with
+    | some k => s!"{Gen.keyToI64 k}" | none => "bad"
   | ["u64be", kt, x] => match x.toNat? with
     | some x => if kt == "string" then hexOf (Gen.stringKeyOfU64 x) else hexOf (Gen.bytesKeyOfU64 x)
     | none => "bad"
